@@ -299,12 +299,13 @@ theorem aggressor_is_the_operations_order (t0 tick : Nat) (trading : Bool) (ht :
   exact ⟨new, h1, fun tr htr => by rw [← subject_abs]; exact h2 tr htr⟩
 
 /-- … and the passive order of every record appended by placing an existing order or by a modification
-was RESTING (Active, queued) before the operation — in every reachable state. (`create_and_place_order`
-is a creation, which appends nothing, followed by such a placement.) -/
+was RESTING (Active, queued) before the operation — in every reachable state; `create_and_place_order`
+included. (The other operations append nothing, `aggressor_is_the_operations_order`.) -/
 theorem passive_order_was_resting (t0 tick : Nat) (trading : Bool) (ht : 0 < tick) (ops : List Op)
     (hv : ∀ op ∈ ops, ValidOp op) (hnf : NoFault (Book.new t0 tick trading) ops) (op : Op) (hvo : ValidOp op)
     (hnfo : (((Book.new t0 tick trading).run ops).step op).1.faulted = false)
-    (hop : (∃ i, op = .place i) ∨ (∃ i, op = .ev (.new i)) ∨ (∃ i p v, op = .modify i p v) ∨ (∃ i p v, op = .ev (.modify i p v))) :
+    (hop : (∃ i, op = .place i) ∨ (∃ i, op = .ev (.new i)) ∨ (∃ i p v, op = .modify i p v) ∨ (∃ i p v, op = .ev (.modify i p v)) ∨
+      (∃ sd vol tr p, op = .cap sd vol tr p)) :
     let b := (Book.new t0 tick trading).run ops
     ∃ new, (b.step op).1.trades = b.trades ++ new ∧
       ∀ tr ∈ new, ∃ e, b.orders[tr.passive]? = some e ∧ e.order.status = .active := by
